@@ -141,10 +141,12 @@ func genSchedule(t *rapid.T, maxStep int) Schedule {
 		th := rapid.SampledFrom([]int{5, 13, 26, 77}).Draw(t, "threshold")
 		return Schedule{Tape: rapid.SliceOfN(rapid.Byte(), 0, 400).Draw(t, "tape"), Threshold: th}
 	}
-	n := rapid.IntRange(0, 4).Draw(t, "npreempt")
+	n := rapid.IntRange(0, 6).Draw(t, "npreempt")
 	var s Schedule
 	for i := 0; i < n; i++ {
-		s.Preempt = append(s.Preempt, [2]int{rapid.IntRange(0, maxStep).Draw(t, "at"), rapid.IntRange(0, 3).Draw(t, "choice")})
+		// positions: uniform over the expected length of the concurrent phase (rapid's integers are biased to small values)
+		at := int(rapid.Uint16().Draw(t, "at")) % (maxStep + 1)
+		s.Preempt = append(s.Preempt, [2]int{at, rapid.IntRange(0, 3).Draw(t, "choice")})
 	}
 	return s
 }
